@@ -5,6 +5,7 @@ package verifhook
 import (
 	"bytes"
 	"runtime"
+	"runtime/debug"
 	"strconv"
 	"sync"
 	"time"
@@ -93,31 +94,31 @@ type PStep struct {
 }
 
 type PResult struct {
-	End         string // main-exit, deadlock, step-budget, harness
-	Steps       int
-	Tasks       int
-	Switches    int
-	Trace       []PStep
-	Note        string
-	BlockedSeen map[string]int // wait reasons observed while a task was blocked
-	MainReturnedWithParked int // tasks still parked/blocked when main returned
-	MaxParallel int            // max number of simultaneously live worker tasks
+	End                    string // main-exit, deadlock, step-budget, harness
+	Steps                  int
+	Tasks                  int
+	Switches               int
+	Trace                  []PStep
+	Note                   string
+	BlockedSeen            map[string]int // wait reasons observed while a task was blocked
+	MainReturnedWithParked int            // tasks still parked/blocked when main returned
+	MaxParallel            int            // max number of simultaneously live worker tasks
 }
 
 var p struct {
-	mu       sync.Mutex
-	tasks    []*ptask
-	byGid    map[uint64]*ptask
-	expected int // goroutines announced by Spawn()
-	cfg      PConfig
-	res      PResult
-	prio     []int
-	changeAt []int
-	victim   int
-	last     int
-	rel      *ptask // the task released for the current step
-	relPrev  int    // the site it was released from
-	forceDump bool  // look at every blocked task's wait reason, whatever the last step was
+	mu        sync.Mutex
+	tasks     []*ptask
+	byGid     map[uint64]*ptask
+	expected  int // goroutines announced by Spawn()
+	cfg       PConfig
+	res       PResult
+	prio      []int
+	changeAt  []int
+	victim    int
+	last      int
+	rel       *ptask // the task released for the current step
+	relPrev   int    // the site it was released from
+	forceDump bool   // look at every blocked task's wait reason, whatever the last step was
 }
 
 func curGid() uint64 {
@@ -394,6 +395,9 @@ func pickP(r []*ptask) *ptask {
 
 // RunP runs mainFn (the instrumented main) as task 0 under scheduler P.
 func RunP(mainFn func(), cfg PConfig) PResult {
+	// one CLI execution per process: without collections a sync.Pool never
+	// loses its contents, so pooled code takes the same branches every time
+	debug.SetGCPercent(-1)
 	p.tasks = nil
 	p.byGid = map[uint64]*ptask{}
 	p.expected = 0
